@@ -621,6 +621,14 @@ func (vt *Model) Draw(win vaxis.Window) {
 			if cell.Grapheme == "" {
 				cell.Grapheme = " "
 			}
+			if w > 1 && col+w > vt.width() {
+				// Half of a wide glyph was shifted to the edge of
+				// the screen (ICH, DCH): don't let it stick out of
+				// our window
+				cell.Grapheme = " "
+				cell.Width = 1
+				w = 1
+			}
 
 			win.SetCell(col, row, cell.Cell)
 			if w == 0 {
